@@ -18,7 +18,7 @@ import time
 import traceback
 
 from . import tlc
-from .common import REPO, bind_repo
+from .common import REPO, bind_repo, guarded, library_raised
 
 VERIF = tlc.VERIF
 EVID = os.path.join(VERIF, "evidence")
@@ -59,7 +59,7 @@ def _pm_call(args):
     i, case = args
     w = WCtx(_PM["seed"], _PM["tmp"], _PM["tier"])
     try:
-        fails = _PM["fn"](w, case)
+        fails = guarded(_PM["fn"], w, case)
     except Exception as ex:  # a harness exception inside a worker is a machinery failure, reported by the parent
         import traceback
 
@@ -147,7 +147,7 @@ class Ctx:
         if len(cases) < 16 or nproc == 1 or self.replay_mode:
             out = []
             for c in cases:
-                out.append(fn(self, c))
+                out.append(guarded(fn, self, c))
             return out
         _PM.update(fn=fn, seed=self.seed, tmp=self.tmp, tier=self.tier)
         res = [None] * len(cases)
@@ -289,11 +289,17 @@ def main(argv=None):
         print("MACHINERY-FAILURE: %s" % ex)
         shutil.rmtree(ctx.tmp, ignore_errors=True)
         return 2
-    except Exception:
+    except Exception as ex:
+        lr = library_raised(ex)
+        if lr is None:
+            traceback.print_exc()
+            print("MACHINERY-FAILURE: harness exception")
+            shutil.rmtree(ctx.tmp, ignore_errors=True)
+            return 2
+        # the real code raised outside a per-case guard: the run is incomplete, and what was seen is a violation
         traceback.print_exc()
-        print("MACHINERY-FAILURE: harness exception")
-        shutil.rmtree(ctx.tmp, ignore_errors=True)
-        return 2
+        ctx.violation(lr[0], lr[1], {"k": "library-raised", "trace": traceback.format_exc()[-1500:]})
+        ctx.note("the run stopped early: the library raised outside a per-case guard")
     return ctx.finish()
 
 
